@@ -23,10 +23,11 @@ CONSTANTS Cfgs, Apis, MaxHeld, MaxLen,
           FileKind(_),        \* api -> "stab" | "mub" | "none": which lookup file the api consults
           Reads(_),           \* api -> set of cached fields its result is computed from
           Shares(_)           \* api -> set of cached fields mutably reachable from its result  (EXTRACTED)
-VARIABLES loaded, dirty, held, pure, hist
-vars == <<loaded, dirty, held, pure, hist>>
+VARIABLES loaded, dirty, held, pure, hist,
+          argver     \* the caller keeps its own argument objects (a stabilizer, a circuit) and may edit them between calls: version 0 / 1
+vars == <<loaded, dirty, held, pure, hist, argver>>
 FileOf(api, c) == <<FileKind(api), c>>
-Init == loaded = {} /\ dirty = {} /\ held = <<>> /\ pure = TRUE /\ hist = <<>>
+Init == loaded = {} /\ dirty = {} /\ held = <<>> /\ pure = TRUE /\ hist = <<>> /\ argver = 0
 Call(api, c) ==
    /\ Len(held) < MaxHeld /\ Len(hist) < MaxLen
    /\ LET f == FileOf(api, c) IN
@@ -34,27 +35,34 @@ Call(api, c) ==
       /\ pure' = ({<<f, fld>> : fld \in Reads(api)} \cap dirty = {})
       /\ held' = Append(held, [api |-> api, cfg |-> c, file |-> f, shares |-> Shares(api)])
    /\ hist' = Append(hist, <<"call", api, c>>)
-   /\ UNCHANGED dirty
+   /\ UNCHANGED <<dirty, argver>>
 Mutate(h) ==
    /\ h \in DOMAIN held /\ Len(hist) < MaxLen
    /\ dirty' = dirty \cup {<<held[h].file, fld>> : fld \in held[h].shares}
    /\ hist' = Append(hist, <<"mutate", h, "">>)
-   /\ UNCHANGED <<loaded, held, pure>>
+   /\ UNCHANGED <<loaded, held, pure, argver>>
 Drop ==
    /\ held # <<>> /\ Len(hist) < MaxLen
    /\ held' = Tail(held)
    /\ hist' = Append(hist, <<"drop", 0, "">>)
-   /\ UNCHANGED <<loaded, dirty, pure>>
-Next == (\E api \in Apis, c \in Cfgs : Call(api, c)) \/ (\E h \in 1..MaxHeld : Mutate(h)) \/ Drop
+   /\ UNCHANGED <<loaded, dirty, pure, argver>>
+(* the caller edits ITS OWN argument objects in place (they stay valid arguments); later calls must answer for the new value *)
+EditArg ==
+   /\ Len(hist) < MaxLen
+   /\ argver' = 1 - argver
+   /\ hist' = Append(hist, <<"editarg", 0, "">>)
+   /\ UNCHANGED <<loaded, dirty, held, pure>>
+Next == (\E api \in Apis, c \in Cfgs : Call(api, c)) \/ (\E h \in 1..MaxHeld : Mutate(h)) \/ Drop \/ EditArg
 Spec == Init /\ [][Next]_vars
 (* THE property: every call returns the pristine result *)
 Pure == pure
 (* handles that alias nothing are indistinguishable *)
-View == <<loaded, dirty, [i \in DOMAIN held |-> IF held[i].shares = {} THEN <<>> ELSE <<held[i].file, held[i].shares>>], pure>>
+View == <<loaded, dirty, [i \in DOMAIN held |-> IF held[i].shares = {} THEN <<>> ELSE <<held[i].file, held[i].shares>>], pure, argver>>
 (* labelled transitions of the complete state graph (BFS; each transition evaluated once) *)
 NextDump == \/ \E api \in Apis, c \in Cfgs : Call(api, c) /\ PrintT(ToJson([k |-> "T", hist |-> hist', loaded |-> loaded', dirty |-> dirty', pure |-> pure']))
             \/ \E h \in 1..MaxHeld : Mutate(h) /\ PrintT(ToJson([k |-> "T", hist |-> hist', loaded |-> loaded', dirty |-> dirty', pure |-> pure']))
             \/ Drop /\ PrintT(ToJson([k |-> "T", hist |-> hist', loaded |-> loaded', dirty |-> dirty', pure |-> pure']))
+            \/ EditArg /\ PrintT(ToJson([k |-> "T", hist |-> hist', loaded |-> loaded', dirty |-> dirty', pure |-> pure']))
 SpecDump == Init /\ [][NextDump]_vars
 (* simulation: emit the behaviour when it has reached its final length *)
 EmitWalk == (Len(hist) = MaxLen) => PrintT(ToJson([k |-> "W", hist |-> hist, loaded |-> loaded, dirty |-> dirty, pure |-> pure]))
